@@ -220,17 +220,21 @@ def parse {Val} (C : Cls Val) (value : Str) (fmt : Option Str) (strict : Bool) :
   let r ← patternFor C (fmtOrBase C fmt)
   parseWith C r value strict
 
-/-- `self.format(fmt)` for a prepared value: escape `%%`, replace every token by its rendering
-    (all occurrences), unescape -/
+/-- `self.format(fmt)` for a prepared value: one left-to-right pass (`re.sub`) over `%%` and directives; `%%` becomes
+    a percent sign, a directive its rendering, an unsupported directive is FormatterKeyError; the text in between is kept -/
 def formatVal {Val} (C : Cls Val) (v : Val) (fmt : Str) : R Str := do
-  let f0 := replaceAll fmt ['%', '%'] Gen.format_escape
-  let toks ← tokens Gen.format_token_re f0
-  let out ← toks.foldlM (fun (acc : Str) (tok : Str) =>
-      if (C.rows.any fun r => r.1 == tok) then do
-        let text ← C.render tok v
-        pure (replaceAll acc tok text)
-      else .error .fmtKey) f0
-  pure (replaceAll out Gen.format_escape ['%'])
+  let r ← reOrErr Gen.format_token_re
+  let (out, _) ← subFold r fmt (fun (_ : Unit) (tok : Str) =>
+      if tok == ['%', '%'] then pure (Gen.format_percent, ())
+      else if (C.rows.any fun r => r.1 == tok) then
+        -- a renderer that yields `None` (Version `%l` without a local label; modelled as `.pyType`, which is what
+        -- `str.replace(None)` raised before the repair) contributes nothing: `re.sub` drops a `None` replacement
+        match C.render tok v with
+        | .ok text => pure (text, ())
+        | .error .pyType => pure ([], ())
+        | .error e => .error e
+      else .error .fmtKey) ()
+  pure out
 
 /-- `obj.format(fmt)` -/
 def format {Val} (C : Cls Val) (o : Obj) (fmt : Str) : R Str := do
